@@ -24,7 +24,12 @@ META.update({
                   "every chain of bind/listen/bind_uds/listen_uds calls sockets[t] and factories[t]/services[t] stem from the same call and the "
                   "wrap_worker_services assertion never fires. Tie: the same scripts run on the real Accept (stepped driver) over real loopback "
                   "TCP/Unix listeners; every snapshot is compared with the model and the conservation/once/routing predicate is evaluated on the "
-                  "implementation trace, where the connection id is read from the accepted stream and the token is the one the real Conn delivered.",
+                  "implementation trace, where the connection id is read from the accepted stream and the token is the one the real Conn delivered. "
+                  "Worker side of the last clause (Model/Wrk.v): C01_worker_no_call_after_stop (once a stop was taken up no service is called "
+                  "again, whatever is queued or pushed later) and C01_worker_queue_released (entering the graceful shutdown releases every queued "
+                  "connection); tie: stream wrk01, the stepped real ServerWorker with stops overtaking queued connections. "
+                  "C01_e2e_oracle_reachable / C01_e2e_ab_oracle_reachable: every state of the end-to-end oracle (abortive clients and "
+                  "back-pressure episodes included) is the run of a script without spurious WouldBlocks.",
     "level_note": "The worker's own services[msg.token].call is the worker group's theorem (Model/Wrk.v, C07), FromStream::from_mio is exercised, not modelled; "
                   "ServerBuilder -> Accept/worker plumbing is a separate pure model (Model/Builder.v) read off builder.rs/accept.rs/worker.rs, not run "
                   "against the real builder here. Trusted base as C02. A connection in the hand of an accept thread that panics is lost (err <> None); "
